@@ -184,7 +184,8 @@ class Check:
     # -------------------------------------------------------------------- TLC
     def tlc(self, module, cfg=None, workers=None, simulate=None, depth=None,
             extra=None, env=None, timeout=3000, expect_violation=None,
-            coverage=False, seed=None, count=True, cwd=None, dfs=False):
+            coverage=False, seed=None, count=True, cwd=None, dfs=False,
+            _allow_violation=False):
         """Runs TLC on specs/<module>.tla with specs/<cfg>. Returns a dict.
         A failing run is a machinery failure unless `expect_violation` names
         the invariant/property that is expected to be violated (used for the
@@ -236,6 +237,8 @@ class Check:
                     % (module, cfg, expect_violation, res["violated"], rc,
                        out[-3000:]))
             return res
+        if _allow_violation and res["violated"] and not res["error"]:
+            return res
         if rc != 0 or res["violated"] or res["error"]:
             raise MachineryFailure("TLC %s/%s failed rc=%s violated=%r\n%s" %
                                    (module, cfg, rc, res["violated"],
@@ -247,6 +250,42 @@ class Check:
             dead = [a for a, (d, g) in res["coverage"].items() if g == 0]
             res["dead_actions"] = dead
         return res
+
+    # ------------------------------------------------- trace validation (H->S)
+    def validate_traces(self, module, cfg, traces, env=None, workers=1,
+                        invariant="Accepting", timeout=3000, extra_doc=None):
+        """Writes {"traces": traces} to a file, lets TLC check the trace
+        specification `module` with `cfg` and returns None if every trace is
+        accepted, else dict(tid=, l=, violated=, state=) for the first
+        rejected one (tid and l are 1-based, as in the trace spec)."""
+        tmp = tempfile.mkdtemp(prefix="trace_")
+        try:
+            path = os.path.join(tmp, "traces.json")
+            doc = {"traces": traces}
+            if extra_doc:
+                doc.update(extra_doc)
+            with open(path, "w") as f:
+                json.dump(doc, f)
+            e = {"TRACE_FILE": path}
+            if env:
+                e.update(env)
+            res = self.tlc(module, cfg, workers=workers, env=e,
+                           timeout=timeout, count=True,
+                           expect_violation=None, _allow_violation=True)
+        finally:
+            shutil.rmtree(tmp, ignore_errors=True)
+        if res["violated"] is None and res["rc"] == 0:
+            self.traces_validated += len(traces)
+            return None
+        out = res["out"]
+        m = re.search(r"/\\ tid = (\d+)", out)
+        ml = re.search(r"/\\ l = (\d+)", out)
+        if not m:
+            raise MachineryFailure("trace validation failed without a state:"
+                                   "\n" + out[-3000:])
+        i = out.find("Error:")
+        return {"tid": int(m.group(1)), "l": int(ml.group(1)) if ml else None,
+                "violated": res["violated"], "state": out[i:i + 1500]}
 
     # ----------------------------------------------------------------- finish
     def finish(self):
